@@ -9,6 +9,7 @@ import (
 	"net/http"
 	"net/http/httptest"
 	"net/url"
+	"strconv"
 	"strings"
 	"sync"
 	"time"
@@ -376,6 +377,14 @@ func c03Exec(c *Case) {
 			}
 		case len(f) >= 1 && f[0] == "hx":
 			c03ExecWide(c, l, f)
+		case len(f) == 2 && f[0] == "fresh":
+			c03Fresh(f[1])
+		case len(f) == 2 && f[0] == "clock":
+			if d, err := strconv.ParseInt(f[1], 10, 64); err == nil {
+				c03Clock += d
+			} else {
+				c.Out(l, "err:bad-op")
+			}
 		default:
 			c.Out(l, "err:bad-op")
 		}
